@@ -116,7 +116,19 @@ def points_for(tree, tier, rnd):
     return rnd.sample(gen.grid(vs, vals), 30)
 
 
+REPLAY = None
+
+
+def replay(pid, path):
+    global REPLAY
+    v = json.load(open(path))["case"]
+    REPLAY = (v["tree"], int(v.get("budget", 1000)))
+    return run(pid, "quick", 0)
+
+
 def inputs_for(pid, tier, seed):
+    if REPLAY is not None:
+        return [REPLAY[0]]
     rnd = random.Random(3000 + seed)
     quick = tier == "quick"
     pats = gen.rule_patterns(tier)
@@ -164,6 +176,8 @@ def run(pid, tier, seed):
         big = [t for t in big if 150 <= J.size(t) <= 700][:12]
     todo = [(t, 1000, None) for t in ins] + [(t, b, None) for t, b in giveup] + [(t, 1000, None) for t in big]
     todo += [(t, 1000, prep) for t, prep in second_round(rnd, tier)]
+    if REPLAY is not None:
+        todo = [(REPLAY[0], REPLAY[1], None)]
     skipped_overflow = 0
     for i, (t, b, prep) in enumerate(todo, 1):
         try:
@@ -291,7 +305,7 @@ def run(pid, tier, seed):
     all_rules = ["A1", "A2", "A3", "A4", "P1", "P2", "P3", "P4", "P5", "P6", "P7", "P8", "M1", "D1", "N1", "N2", "R1", "R2", "R3", "W1", "W2", "W3", "W4", "W5",
                  "W6", "W7", "W8", "W9", "Q1", "Q2", "Q3", "Q4", "Q5", "Q6", "T1", "T2", "T3", "T4", "T5", "X1", "X2", "L1", "L2", "L3", "C1", "S1", "F"]
     never = [r for r in all_rules if r not in fired]
-    if never:
+    if never and REPLAY is None:
         raise Machinery(f"vacuity: rules never fired in this run: {never}")
     return rep.finish({"evaluations": counts["steps"] + 2 * len(rows), "distinct_nontrivial": len(nontrivial), "traces_validated_against_impl": len(rows),
                        "derivations": len(rows), "skipped_overflow": skipped_overflow, "rule_fire_counts": fired, **counts,
